@@ -2,5 +2,18 @@
 
 package webrtc
 
+import (
+	"context"
+
+	"github.com/pion/datachannel"
+)
+
 // VerifIsOfferer exports isOfferer for the verification harness.
 func VerifIsOfferer(a, b string) bool { return isOfferer(a, b) }
+
+// VerifExecuteLink builds the session tracker for the signalled peer and
+// returns its role and its link routine over the given data channel.
+func VerifExecuteLink(ctx context.Context, w *WebRTC, peerIDStr string, dc datachannel.ReadWriteCloser) (bool, func() error) {
+	_, tkr := w.newSessionTracker(peerIDStr)
+	return tkr.offerer, func() error { return tkr.executeLink(ctx, dc) }
+}
